@@ -85,12 +85,26 @@ def response_inv(r):
 
 @contract('pjrpc.common.v20:BatchRequest.to_json', props=['C05', 'C07'])
 class BatchRequestToJson:
-    """ASSUMED (not proved: the element-wise quantified postcondition over a comprehension takes the generator
-    minutes and is not yet stable); bounded stand-in: ./check standins"""
-    assumed = True
+    """The body is one list comprehension.  PROVED (comprehension contract, generic element): it runs over exactly
+    self._requests, in order, and each produced element is the wire form of its source element.  The element-wise
+    postcondition below is then the generator's (trusted) semantics of a comprehension - it is ASSUMED as a clause
+    (proving the quantified form directly took the generator minutes and was unstable)."""
     types = {'self': 'pjrpc.common.v20:BatchRequest'}
     raises_only = ()
     result_type = '=list'
+    result_fresh = True
+    cross_check = False
+    assumed_clauses = ('ensures_wire',)
+    comp_wire = {'elt_contains': 'to_json'}
+
+    def requires_elements(self):
+        return all(params_ok(r._params) for r in self._requests)
+
+    def comp_wire__source(self, xs):
+        return seq_same(xs, self._requests)
+
+    def comp_wire__element(self, x, y):
+        return request_wire(y, x)
 
     def ensures_wire(self, result):
         # C05: the array of the elements' wire forms, in element order
@@ -100,16 +114,35 @@ class BatchRequestToJson:
 
 @contract('pjrpc.common.v20:BatchResponse.to_json', props=['C05', 'C01'])
 class BatchResponseToJson:
-    """ASSUMED (see BatchRequestToJson); bounded stand-in: ./check standins"""
-    assumed = True
+    """see BatchRequestToJson: comprehension contract proved, the quantified clause assumed; the batch-level error
+    branch is proved"""
     types = {'self': 'pjrpc.common.v20:BatchResponse'}
     raises_only = ()
+    cross_check = False
+    assumed_clauses = ('ensures_wire',)
+    comp_wire = {'elt_contains': 'to_json'}
+
+    def requires_inv(self):
+        return (self._error is UNSET or isinstance(self._error, JsonRpcError)) and all(
+            ((r._result is UNSET) != (r._error is UNSET)) and (r._error is UNSET or isinstance(r._error, JsonRpcError))
+            for r in self._responses)
+
+    def comp_wire__source(self, xs):
+        return seq_same(xs, self._responses)
+
+    def comp_wire__element(self, x, y):
+        return response_wire(y, x)
+
+    def ensures_error_branch(self, result):
+        if self._error is UNSET:
+            return True
+        # a batch-level error is a single response object with id null
+        return (isinstance(result, dict) and member(result, 'jsonrpc') == '2.0' and member(result, 'id') is None
+                and is_absent(member(result, 'result')) and isinstance(member(result, 'error'), dict))
 
     def ensures_wire(self, result):
         if self._error is not UNSET:
-            # a batch-level error is a single response object with id null
-            return (isinstance(result, dict) and member(result, 'jsonrpc') == '2.0' and member(result, 'id') is None
-                    and is_absent(member(result, 'result')) and isinstance(member(result, 'error'), dict))
+            return True
         return (isinstance(result, list) and len(result) == len(self._responses)
                 and all(response_wire(result[i], self._responses[i]) for i in range(len(result))))
 
